@@ -17,7 +17,7 @@ LEVEL_NOTE = ("Bounds: 1-2 modules + vector, record length n<=10 for the element
               "the product, requested id/name) is decided symbolically; the write/read itself (Biopython's writer/parser) cannot be "
               "executed symbolically and is exercised only on the concrete samples and replays that run on the real stack - sampling, "
               "not part of the solver's claim. Trusted: z3, CPython, symx models.")
-LEVEL_NOTE_EXTRA = 'a product whose id equals an input id or the default id; the same objects assembled twice; a superfluous module; eleven shapes of requested id/name; GenBank pre-conditions.'
+LEVEL_NOTE_EXTRA = 'a product whose id equals an input id or the default id; the same objects assembled twice; a superfluous module; eleven shapes of requested id/name; GenBank pre-conditions. Also: input ids ending in b/g/., long hyphenated ids; the GenBank write/read runs on the real stack only (concrete samples).'
 TECHNIQUE = "bounded symbolic execution of the real Python source (symx) with z3 on symbolic match spans; position-tag letters; replay on the real stack"
 EXPLANATION = "tiling and verbatim-origin of the generated source features are arithmetic statements over symbolic spans decided by z3"
 ASSUMPTIONS = [
